@@ -486,6 +486,9 @@ func numTS(b []byte, resumeOffset int, state ConsumeNumberState) int {
 //@ ensures utf8-iff: len(b) > 0 && b[0] == '"' ==> (err == ErrInvalidUTF8) == (strScanFrom(b, 1, validateUTF8, old(*flags)%2 == 1, old(*flags)/2%2 == 1).kind == uBadUTF8)
 //@ ensures verbatim-exact: len(b) > 0 && b[0] == '"' && err == nil ==> (*flags%2 == 1) == strScanFrom(b, 1, validateUTF8, old(*flags)%2 == 1, old(*flags)/2%2 == 1).nonVerb
 //@ ensures canonical-exact: len(b) > 0 && b[0] == '"' && err == nil ==> (*flags/2%2 == 1) == strScanFrom(b, 1, validateUTF8, old(*flags)%2 == 1, old(*flags)/2%2 == 1).nonCanon
+//@ ensures range: 0 <= n && n <= len(b)
+//@ ensures err-type: err == nil || isUnexpectedEOF(err) || err == ErrInvalidUTF8 || isInvalidTextErr(err)
+//@ ensures ok-len: err == nil ==> n >= 2 && b[0] == '"' && b[n-1] == '"'
 
 //@ func ConsumeNumber
 //@ property C01 C10 C20
@@ -494,3 +497,4 @@ func numTS(b []byte, resumeOffset int, state ConsumeNumberState) int {
 //@ ensures eof-iff: isUnexpectedEOF(err) == (!numAcc(numEndState(b, 0, nInit)) && numEndPos(b, 0, nInit) == len(b))
 //@ ensures bad-n: err != nil && !isUnexpectedEOF(err) ==> n == numEndPos(b, 0, nInit) && n < len(b)
 //@ ensures range: 0 <= n && n <= len(b) && (err == nil ==> n >= 1)
+//@ ensures err-type: err == nil || isUnexpectedEOF(err) || isInvalidTextErr(err)
